@@ -152,3 +152,61 @@ def first_diff(a, b):
         return None
     i = tuple(int(x) for x in idx[0])
     return {"index": i, "a": float(a[i]), "b": float(b[i]), "count": int(neq.sum())}
+
+
+# --------------------------------------------------------------------------------------------
+# the public path with every intermediate product captured (C13: composed model run vs pandora.run)
+# --------------------------------------------------------------------------------------------
+def run_pipeline_traced(left, right, pipe):
+    """`check_conf` + `pandora.run` (the public path) on a `PandoraMachine` whose `run(step, cfg)` — the method
+    `pandora.run` calls for every step — snapshots what the step leaves behind:
+      state cost_volume -> left/right cost volume (float64 copy), the `validity_mask` of the volume, `disp` coords
+      state disp_map    -> left/right disparity map and validity mask
+    Returns {"steps": [(name, snapshot)], "left": ds, "right": ds} or {"steps": [...], "error": type name, "at": step}."""
+    import logging
+
+    import pandora
+    from pandora.check_configuration import update_conf
+    from pandora.state_machine import PandoraMachine
+
+    logging.getLogger("transitions").setLevel(logging.ERROR)
+    steps = []
+    at = ["check_conf"]
+
+    class Traced(PandoraMachine):
+        def run(self, input_step, cfg):  # pylint: disable=arguments-differ
+            at[0] = input_step
+            super().run(input_step, cfg)
+            snap = {"state": self.state}
+            two = self.right_disp_map == "cross_checking_accurate"
+            if self.state == "cost_volume":
+                for side, cv in (("left", self.left_cv), ("right", self.right_cv if two else None)):
+                    if cv is None:
+                        continue
+                    snap[side] = {"cv": np.array(cv["cost_volume"].data, dtype=np.float64),
+                                  "mask": np.array(cv["validity_mask"].data).astype(np.int64) if "validity_mask" in cv else None,
+                                  "disp": [float(d) for d in cv.coords["disp"].data]}
+            elif self.state == "disp_map":
+                for side, d in (("left", self.left_disparity), ("right", self.right_disparity if two else None)):
+                    if d is None or "disparity_map" not in d:
+                        continue
+                    snap[side] = {"map": np.array(d["disparity_map"].data, dtype=np.float64),
+                                  "mask": np.array(d["validity_mask"].data).astype(np.int64)}
+            steps.append((input_step, snap))
+
+    cfg = {"pipeline": copy.deepcopy(pipe)}
+    cfg = update_conf({"pipeline": {}}, cfg)
+    m = Traced()
+    meta = lambda ds: ds if "band_im" in ds.coords else ds.assign_coords(band_im=[None])
+    try:
+        m.check_conf(copy.deepcopy(cfg), meta(left), meta(right))
+        cfg["pipeline"] = copy.deepcopy(m.pipeline_cfg["pipeline"])
+        at[0] = "run_prepare"
+        out_l, out_r = pandora.run(m, left, right, cfg)
+    except Exception as exc:  # pylint: disable=broad-except
+        try:
+            m.run_exit()
+        except Exception:  # pylint: disable=broad-except
+            pass
+        return {"steps": steps, "error": type(exc).__name__, "message": str(exc)[:200], "at": at[0]}
+    return {"steps": steps, "left": out_l, "right": out_r, "cfg": cfg}
